@@ -1,6 +1,7 @@
 package main
 
 import (
+	"os"
 	"fmt"
 	"math/big"
 	"strings"
@@ -121,6 +122,7 @@ func Discharge(obls []*Obligation, opts SolveOpts, workers int, wantModels bool)
 		o      *Obligation
 		script string
 		aided  string
+		ground string
 		small  string
 		mq     *modelQuery
 	}
@@ -175,11 +177,28 @@ func Discharge(obls []*Obligation, opts SolveOpts, workers int, wantModels bool)
 				small = tb.Script(append(append([]*Term(nil), asserts...), extra...), gv, false)
 			}
 		}
-		aided := ""
+		aided, ground := "", ""
 		if len(o.Aid) > 0 {
 			aided = tb.Script(append(append([]*Term(nil), asserts...), o.Aid...), gv, false)
+			// ground arm: the instances with every remaining quantifier weakened away (only "unsat" means anything)
+			var gs []*Term
+			for _, a := range asserts {
+				if w := tb.WeakenQ(a, 1); !w.IsTrue() {
+					gs = append(gs, w)
+				}
+			}
+			for _, a := range o.Aid {
+				if w := tb.WeakenQ(a, 1); !w.IsTrue() {
+					gs = append(gs, w)
+				}
+			}
+			ground = tb.Script(gs, nil, false)
+			if d := os.Getenv("GOVC_DUMPGROUND"); d != "" {
+				os.MkdirAll(d, 0755)
+				os.WriteFile(fmt.Sprintf("%s/%s_%d.smt2", d, sanitize(o.Name), len(jobs)), []byte(ground), 0644)
+			}
 		}
-		jobs = append(jobs, job{o, tb.Script(asserts, gv, false), aided, small, mq})
+		jobs = append(jobs, job{o, tb.Script(asserts, gv, false), aided, ground, small, mq})
 	}
 	_ = ch
 	jch := make(chan job)
@@ -188,7 +207,7 @@ func Discharge(obls []*Obligation, opts SolveOpts, workers int, wantModels bool)
 		go func() {
 			defer wg.Done()
 			for j := range jch {
-				r := SolveAided(j.script, j.aided, opts)
+				r := SolveAided(j.script, j.aided, j.ground, opts)
 				if r.Status == "sat" && j.small != "" {
 					// prefer a counterexample with small slices (replayable); keep the first answer otherwise
 					if r2 := Solve(j.small, opts); r2.Status == "sat" {
